@@ -43,12 +43,17 @@ const fn infix_binding_power(op: BinaryOp) -> (u8, u8) {
     }
 }
 
+/// Maximum nesting depth of expressions and subqueries inside a statement.
+const MAX_DEPTH: usize = 64;
+
 /// Statement parser.
 pub struct Parser<'a> {
     source: &'a str,
     lexer: Lexer<'a>,
     current: Token,
     peeked: Option<Token>,
+    /// Current expression / subquery nesting depth (bounded by `MAX_DEPTH`).
+    depth: usize,
 }
 
 impl<'a> Parser<'a> {
@@ -62,6 +67,7 @@ impl<'a> Parser<'a> {
             lexer,
             current,
             peeked: None,
+            depth: 0,
         }
     }
 
@@ -192,6 +198,26 @@ impl<'a> Parser<'a> {
 
     /// Parses an expression with the given minimum binding power.
     fn parse_expr_bp(&mut self, min_bp: u8) -> ParseResult<Expr> {
+        self.enter_nested()?;
+        let result = self.parse_expr_bp_inner(min_bp);
+        self.depth -= 1;
+        result
+    }
+
+    /// Bounds recursion so that deeply nested input yields an error instead of
+    /// exhausting the stack.
+    fn enter_nested(&mut self) -> ParseResult<()> {
+        if self.depth >= MAX_DEPTH {
+            return Err(ParseError::new(
+                crate::error::ParseErrorKind::TooDeep,
+                self.current.span,
+            ));
+        }
+        self.depth += 1;
+        Ok(())
+    }
+
+    fn parse_expr_bp_inner(&mut self, min_bp: u8) -> ParseResult<Expr> {
         let mut lhs = self.parse_prefix_expr()?;
 
         loop {
@@ -765,6 +791,13 @@ impl<'a> Parser<'a> {
     /// Parses a SELECT statement body (after the SELECT keyword).
     /// Used for both standalone SELECT and subqueries.
     fn parse_select_body(&mut self) -> ParseResult<SelectStmt> {
+        self.enter_nested()?;
+        let result = self.parse_select_body_inner();
+        self.depth -= 1;
+        result
+    }
+
+    fn parse_select_body_inner(&mut self) -> ParseResult<SelectStmt> {
         // Handle DISTINCT or ALL (ALL is the default, just consume it)
         let distinct = if self.eat(&TokenKind::Distinct) {
             true
